@@ -41,3 +41,24 @@ def total(models, q, T, P, x):
     for m in models:
         tot = tot + contribution(m, q, T, P, x)
     return tot
+
+
+def build_default(kind, phase):
+    """a species of the given class built the way users do: no misc_models argument"""
+    import pmutt.empirical.nasa as nasa
+    import pmutt.empirical.shomate as shomate
+    if kind == 'Nasa':
+        return nasa.Nasa(name='A', T_low=200., T_mid=1000., T_high=3000., a_low=[1., 0., 0., 0., 0., 0., 0.],
+                         a_high=[1., 0., 0., 0., 0., 0., 0.], phase=phase)
+    if kind == 'Nasa9':
+        return nasa.Nasa9(name='A', phase=phase,
+                          nasas=[nasa.SingleNasa9(T_low=200., T_high=3000., a=[0., 0., 1., 0., 0., 0., 0., 0., 0.])])
+    if kind == 'Shomate':
+        return shomate.Shomate(name='A', T_low=200., T_high=3000., a=[1., 0., 0., 0., 0., 0., 0., 0.], phase=phase)
+    raise ValueError(kind)
+
+
+def built_after(kind, first_phase, phase):
+    """the species of `phase` built after another species of `first_phase` was built in the same process"""
+    build_default(kind, first_phase)
+    return build_default(kind, phase)
